@@ -53,3 +53,43 @@ func refBytesEq(a, b []byte) bool {
 	}
 	return true
 }
+
+// refFloorDiv: mathematical floor(a/b) for b > 0.
+func refFloorDiv(a, b int64) int64 {
+	q := a / b
+	if a%b != 0 && a < 0 {
+		q--
+	}
+	return q
+}
+
+// refVint: spec "vint" = zig-zag, then a unary length prefix (k leading one bits => k more bytes).
+func refVint(v int64) []byte {
+	u := uint64(v<<1) ^ uint64(v>>63)
+	k := 8
+	for j := 0; j < 8; j++ {
+		if u>>(7*uint(j+1)) == 0 {
+			k = j
+			break
+		}
+	}
+	out := make([]byte, k+1)
+	for i := k; i >= 1; i-- {
+		out[i] = byte(u)
+		u >>= 8
+	}
+	if k < 8 {
+		out[0] = byte(u) | ^byte(0xff>>uint(k))
+	} else {
+		out[0] = 0xff
+	}
+	return out
+}
+
+func refCat(parts ...[]byte) []byte {
+	var out []byte
+	for _, p := range parts {
+		out = append(out, p...)
+	}
+	return out
+}
